@@ -1,5 +1,5 @@
 (** C22 — proofs: every stage of the pipeline can only reject; an accepting run
-    establishes every clause of [acceptable] (under the four guards that the
+    establishes every clause of [acceptable] (under the three guards that the
     refutations show to be necessary). *)
 From Coq Require Import List ZArith NArith Bool Lia.
 From C33 Require Import Lib.Harness C22.Model C22.Spec.
@@ -58,7 +58,6 @@ Qed.
 (** ** what each stage establishes *)
 
 Definition g_fwd (s : sub) : bool := negb (s_forward s).
-Definition g_wrap (s : sub) : bool := cl_entry s.
 Definition g_fee (c : config) (s : sub) : bool :=
   negb (c_minfee c =? 0) || c_level c || (0 <=? t_fee (s_outer s)).
 Definition g_hdr (s : sub) : bool :=
@@ -87,6 +86,42 @@ Qed.
 
 Lemma owed_zero : forall ts, owed_all 0 ts = 0.
 Proof. induction ts as [|t ts IH]; simpl; [reflexivity|]. unfold owed. rewrite IH. lia. Qed.
+
+(** checkTxs on a group that is not forwarded *)
+Lemma check_txs_group_inv : forall c p s ms ok, s_shape s = Group ms ok -> s_forward s = false ->
+  check_txs c p s = R_OK ->
+  check_group c ms ok = R_OK /\ (if c_level c then check_level c p s else R_OK) = R_OK
+  /\ (exists h tl, ms = h :: tl /\ is_group_head (s_outer s) h = true)
+  /\ first_err (check_member c p true) ms = R_OK.
+Proof.
+  intros c p s ms ok Hsh Hf H. unfold check_txs in H. rewrite Hf in H.
+  unfold check_tx in H. rewrite Hsh in H.
+  destruct (negb (N.eqb (check_group c ms ok) R_OK)) eqn:E1; [rewrite H in E1; discriminate|].
+  apply neq_ok_false in E1.
+  destruct (negb (N.eqb (if c_level c then check_level c p s else R_OK) R_OK)) eqn:E2; [rewrite H in E2; discriminate|].
+  apply neq_ok_false in E2.
+  destruct ms as [|h tl]; [discriminate|].
+  destruct (is_group_head (s_outer s) h) eqn:Eh; [|discriminate].
+  repeat split; try assumption. exists h, tl. split; [reflexivity|exact Eh].
+Qed.
+
+(** the wrapper of an admitted group is the pool entry the property asks for *)
+Lemma head_entry : forall o h, wrap_consistent o h = true -> is_group_head o h = true -> same_entry o h = true.
+Proof.
+  intros o h Hc Hh. unfold is_group_head in Hh. apply andb_true_iff in Hh as [Hi Hs].
+  unfold wrap_consistent in Hc. rewrite Hi, Hs in Hc. simpl in Hc.
+  apply andb_true_iff in Hc as [Hnf Hse]. apply andb_true_iff in Hnf as [Hn Hfe].
+  apply andb_true_iff in Hse as [Hse Het].
+  unfold same_entry. rewrite Hi, Hn, Hfe, Hse, Het. reflexivity.
+Qed.
+
+Lemma group_entry : forall c p s ms ok, s_shape s = Group ms ok -> s_forward s = false ->
+  facts_consistent s = true -> check_txs c p s = R_OK -> cl_entry s = true.
+Proof.
+  intros c p s ms ok Hsh Hf Hc H.
+  destruct (check_txs_group_inv _ _ _ _ _ Hsh Hf H) as (_ & _ & (h & tl & -> & Hh) & _).
+  unfold facts_consistent in Hc. unfold cl_entry. rewrite Hsh in *. apply head_entry; assumption.
+Qed.
 
 (** early checks, plain transaction *)
 Lemma early_plain : forall c p s, cfg_ok c -> s_shape s = Plain -> s_forward s = false ->
@@ -137,13 +172,9 @@ Lemma early_group : forall c p s ms ok, cfg_ok c -> s_shape s = Group ms ok -> s
   cl_entry s = true -> g_hdr s = true -> check_txs c p s = R_OK ->
   acc_early_but c p s ms (fee_meets c p s ms) (cl_exp_on c ms) = true.
 Proof.
-  intros c p s ms ok [Hmin Hmax] Hsh Hf Hent Hh H. unfold check_txs in H. rewrite Hf in H.
-  unfold check_tx in H. rewrite Hsh in H.
-  destruct (negb (N.eqb (check_group c ms ok) R_OK)) eqn:E1; [rewrite H in E1; discriminate|].
-  apply neq_ok_false in E1.
-  destruct (negb (N.eqb (if c_level c then check_level c p s else R_OK) R_OK)) eqn:E2; [rewrite H in E2; discriminate|].
-  apply neq_ok_false in E2.
-  pose proof (first_err_ok _ _ _ H) as Hm. clear H.
+  intros c p s ms ok [Hmin Hmax] Hsh Hf Hent Hh H.
+  destruct (check_txs_group_inv _ _ _ _ _ Hsh Hf H) as (E1 & E2 & _ & H'). clear H.
+  pose proof (first_err_ok _ _ _ H') as Hm. clear H'.
   unfold g_hdr in Hh. rewrite Hsh in Hh. rewrite forallb_forall in Hh.
   assert (Hall : forall t, In t ms -> t_to_valid t = true /\ t_blocked t = false /\ expired_next c t = false).
   { intros t Hin. destruct (member_ok _ _ _ _ (Hm t Hin)) as (A & B & _ & D).
@@ -241,22 +272,25 @@ Qed.
 (** ** main statements *)
 
 Definition accepted_sound (g : config -> sub -> bool) : Prop :=
-  forall c p s p', cfg_ok c -> pipeline c p (STx s) = (R_OK, p') -> g c s = true -> acceptable c p s = true.
+  forall c p s p', cfg_ok c -> facts_consistent s = true -> pipeline c p (STx s) = (R_OK, p') ->
+                   g c s = true -> acceptable c p s = true.
 
-Definition all_guards (c : config) (s : sub) : bool := g_fwd s && g_wrap s && g_fee c s && g_hdr s.
+Definition all_guards (c : config) (s : sub) : bool := g_fwd s && g_fee c s && g_hdr s.
 
 Lemma accepted_partial : accepted_sound all_guards.
 Proof.
-  intros c p s p' Hc H G. unfold all_guards in G.
-  apply andb_true_iff in G as [G Gh]. apply andb_true_iff in G as [G Gf].
-  apply andb_true_iff in G as [Gw Ge]. unfold g_fwd in Gw. apply negb_true_iff in Gw. unfold g_wrap in Ge.
+  intros c p s p' Hc Hfc H G. unfold all_guards in G.
+  apply andb_true_iff in G as [G Gh]. apply andb_true_iff in G as [Gw Gf].
+  unfold g_fwd in Gw. apply negb_true_iff in Gw.
   apply pipeline_ok_inv in H as (_ & Ht & Hs & Hr).
   unfold acceptable. destruct (txs_of s) as [ts|] eqn:Hts.
   2:{ unfold txs_of in Hts. unfold check_sign in Hs. destruct (s_shape s); try discriminate. }
-  destruct (late_ok _ _ _ _ _ Hts Hs Hr) as [Hl _]. rewrite Ge, Hl. simpl.
+  destruct (late_ok _ _ _ _ _ Hts Hs Hr) as [Hl _]. rewrite Hl.
   unfold txs_of in Hts. destruct (s_shape s) as [| |ms ok] eqn:Hsh; inversion Hts; subst ts.
-  - apply early_plain; assumption.
-  - apply (early_group c p s ms ok); assumption.
+  - assert (Ge : cl_entry s = true) by (unfold cl_entry; rewrite Hsh; reflexivity).
+    rewrite Ge. simpl. apply early_plain; assumption.
+  - pose proof (group_entry c p s ms ok Hsh Gw Hfc Ht) as Ge.
+    rewrite Ge. simpl. apply (early_group c p s ms ok); assumption.
 Qed.
 
 Lemma rejected_unchanged : forall c p m r p', pipeline c p m = (r, p') -> r <> R_OK -> p' = p.
@@ -324,11 +358,8 @@ Lemma group_members_checked : forall c p s ms ok p', pipeline c p (STx s) = (R_O
 Proof.
   intros c p s ms ok p' H Hf Hsh.
   apply pipeline_ok_inv in H as (_ & Ht & Hs & Hr).
-  unfold check_txs in Ht. rewrite Hf in Ht. unfold check_tx in Ht. rewrite Hsh in Ht.
-  destruct (negb (N.eqb (check_group c ms ok) R_OK)) eqn:E1; [rewrite Ht in E1; discriminate|].
-  apply neq_ok_false in E1.
-  destruct (negb (N.eqb (if c_level c then check_level c p s else R_OK) R_OK)) eqn:E2; [rewrite Ht in E2; discriminate|].
-  pose proof (first_err_ok _ _ _ Ht) as Hm.
+  destruct (check_txs_group_inv _ _ _ _ _ Hsh Hf Ht) as (E1 & _ & _ & Ht').
+  pose proof (first_err_ok _ _ _ Ht') as Hm.
   unfold check_group in E1.
   destruct (Z.ltb_spec (Z.of_nat (length ms)) 2); [discriminate|].
   destruct (negb (N.eqb (first_err (fun t => check_one c t 0) ms) R_OK)) eqn:E0; [rewrite E1 in E0; discriminate|].
@@ -353,4 +384,35 @@ Proof.
   - intro St. specialize (Hc t Hin). cbv beta in Hc. unfold check_one in Hc. rewrite St in Hc. simpl in Hc.
     destruct (t_chain_ok t); [reflexivity|discriminate].
   - intro He. apply (expired_chk_next c true t D). rewrite He. reflexivity.
+Qed.
+
+(** the wrapper of an admitted, not forwarded group is the group's first transaction:
+    same hash, same signature, hence (consistent facts) the same pool entry *)
+Lemma group_wrapper_is_head : forall c p s ms ok p', pipeline c p (STx s) = (R_OK, p') ->
+  s_forward s = false -> s_shape s = Group ms ok ->
+  exists h tl, ms = h :: tl /\ t_id (s_outer s) = t_id h /\ t_sigid (s_outer s) = t_sigid h
+               /\ (facts_consistent s = true -> same_entry (s_outer s) h = true).
+Proof.
+  intros c p s ms ok p' H Hf Hsh.
+  apply pipeline_ok_inv in H as (_ & Ht & _ & _).
+  destruct (check_txs_group_inv _ _ _ _ _ Hsh Hf Ht) as (_ & _ & (h & tl & -> & Hh) & _).
+  exists h, tl. split; [reflexivity|].
+  pose proof Hh as Hh'. unfold is_group_head in Hh'. apply andb_true_iff in Hh' as [Hi Hs].
+  apply N.eqb_eq in Hi. apply N.eqb_eq in Hs. repeat split; try assumption.
+  intro Hc. unfold facts_consistent in Hc. rewrite Hsh in Hc. apply head_entry; assumption.
+Qed.
+
+(** a group whose wrapper differs from its first transaction in hash or signature is refused
+    with the group-structure error, whatever else holds *)
+Lemma foreign_wrapper_rejected : forall c p s h tl ok, c_synced c = true -> s_forward s = false ->
+  s_shape s = Group (h :: tl) ok -> is_group_head (s_outer s) h = false ->
+  exists r, pipeline c p (STx s) = (r, p) /\ r <> R_OK.
+Proof.
+  intros c p s h tl ok Hsy Hf Hsh Hh.
+  destruct (pipeline c p (STx s)) as [r p'] eqn:E.
+  destruct (N.eq_dec r R_OK) as [->|Hr].
+  - exfalso. apply pipeline_ok_inv in E as (_ & Ht & _ & _).
+    destruct (check_txs_group_inv _ _ _ _ _ Hsh Hf Ht) as (_ & _ & (h' & tl' & Heq & Hh') & _).
+    inversion Heq; subst h' tl'. congruence.
+  - exists r. split; [|exact Hr]. f_equal. exact (rejected_unchanged _ _ _ _ _ E Hr).
 Qed.
